@@ -17,11 +17,13 @@ PAValid(r) == r.pa /\ r.et = kEt /\ (r.salt = "stored" \/ (customSalt => r.salt 
 KDCAnswer(r) == IF requirePreauth /\ ~PAValid(r)
                 THEN [t |-> "preauth", code |-> IF r.pa THEN PREAUTH_FAILED ELSE PREAUTH_REQUIRED, hint |-> kEt]
                 ELSE [t |-> "reply", good |-> TRUE]
-\* the credentials that can work at all: a key for the principal's etype is held, and the AssumePreAuthentication option is not combined
-\* with a keytab that lacks the etype of an unsolicited timestamp (then nothing is ever sent: not a configuration of the property)
-CCreds == [password : {TRUE}, keyEts : {Etypes}, assumeInit : BOOLEAN] \cup [password : {FALSE}, keyEts : {{18}, {17, 23}, {17, 18}}, assumeInit : {FALSE}]
-          \cup [password : {FALSE}, keyEts : {{17, 23}, {17, 18}}, assumeInit : {TRUE}]
-CInit == Init /\ kEt \in KEts \cap cred.keyEts /\ customSalt \in SaltKinds /\ requirePreauth \in PreauthPolicies
+\* the credentials that can work at all: a key for the principal's etype is held and the requests offer that etype (a conformant KDC
+\* chooses among the etypes offered); every credential kind with and without the AssumePreAuthentication option
+Tkts == {<<18, 17, 23>>, <<23, 18>>, <<17, 18>>}
+SetOf(s) == {s[i] : i \in DOMAIN s}
+CCreds == [password : {TRUE}, keyEts : {Etypes}, assumeInit : BOOLEAN, tkt : Tkts]
+          \cup [password : {FALSE}, keyEts : {{18}, {17, 23}, {17, 18}, {23}}, assumeInit : BOOLEAN, tkt : Tkts]
+CInit == Init /\ kEt \in KEts \cap cred.keyEts \cap SetOf(cred.tkt) /\ customSalt \in SaltKinds /\ requirePreauth \in PreauthPolicies
 CNext == (Begin \/ Recv(KDCAnswer(req))) /\ UNCHANGED <<kEt, customSalt, requirePreauth>>
 CSpec == CInit /\ [][CNext]_cvars
 LoginSucceeds == (pc = "idle" /\ logins > 0) => outcome = "ok"
